@@ -102,6 +102,8 @@ impl<Error: Send + 'static> DecodeScheduler<Error> {
 				Err(error) => {
 					self.error_producer.push(error).ok();
 					self.shared.encountered_error.store(true, Ordering::SeqCst);
+					// the sound stops as soon as it sees the error; there is nothing left to decode
+					break;
 				}
 			}
 		});
